@@ -1961,3 +1961,201 @@ func cornerNotCoordinateRule(p *core.Program, r *core.Report, rule string) {
 	}
 	r.Check(bad == "" && ncalls >= 1, rule, "geom.(*Bounds)/fold-kernel-arguments", "bounds.go", true, fmt.Sprintf("%d kernel(s), %d call(s), none is handed a box corner", len(kernels), ncalls), bad)
 }
+
+// countSumCoupledRule (C14): the mean of points is sum / count; the count advances by exactly one for every
+// coordinate whose ordinates are added to the sum.
+func countSumCoupledRule(p *core.Program, r *core.Report, rule string) {
+	r.Rule(rule, "in the methods of xy.PointCentroidCalculator every store to the point count is `count + 1` and sits in the same basic block as the additions of one coordinate's x and y to the running sum (and every such addition has the count increment in its block): the divisor of the mean is the number of coordinates summed - not a member count taken from elsewhere, which differs when a MultiPoint has EMPTY members. (A count advanced by n for a loop summing n coordinates is equivalent and would be reported: the rule recognises the per-coordinate form only.)", 1)
+	var methods []*ssa.Function
+	for _, fn := range pkgFuncs(p, "xy") {
+		if fn.Signature.Recv() != nil && strings.Contains(fn.Signature.Recv().Type().String(), "PointCentroidCalculator") {
+			methods = append(methods, fn)
+		}
+	}
+	if len(methods) == 0 {
+		r.Lost(rule, "xy.PointCentroidCalculator", "the calculator has no methods any more")
+		return
+	}
+	isCountAddr := func(a ssa.Value) bool {
+		fa, ok := a.(*ssa.FieldAddr)
+		if !ok {
+			return false
+		}
+		st, ok := fa.X.Type().Underlying().(*types.Pointer).Elem().Underlying().(*types.Struct)
+		if !ok {
+			return false
+		}
+		b, isB := st.Field(fa.Field).Type().Underlying().(*types.Basic)
+		return isB && b.Kind() == types.Int
+	}
+	isSumStore := func(st *ssa.Store) bool {
+		ia, ok := st.Addr.(*ssa.IndexAddr)
+		if !ok {
+			return false
+		}
+		_, path, okf := fieldLoad(ia.X)
+		return okf && path != "" && (isCoordType(ia.X.Type()) || isFloatSlice(ia.X.Type()))
+	}
+	bad := ""
+	nInc, nSum := 0, 0
+	for _, fn := range methods {
+		for _, b := range fn.Blocks {
+			inc, sums := 0, 0
+			for _, in := range b.Instrs {
+				st, ok := in.(*ssa.Store)
+				if !ok {
+					continue
+				}
+				if isCountAddr(st.Addr) {
+					if c, isC := st.Val.(*ssa.Const); isC && fn.Name() != "AddCoord" {
+						_ = c // initialisation to a constant
+						continue
+					}
+					bo, isB := st.Val.(*ssa.BinOp)
+					one := false
+					if isB && bo.Op == token.ADD {
+						if k, isK := eng.ConstInt(bo.Y); isK && k == 1 {
+							if ld, isLd := bo.X.(*ssa.UnOp); isLd && ld.Op == token.MUL && isCountAddr(ld.X) {
+								one = true
+							}
+						}
+					}
+					if !one {
+						bad = fmt.Sprintf("the point count is set to %s at %s, not advanced by one per coordinate", st.Val, p.Pos(st.Pos()))
+					}
+					inc++
+				}
+				if isSumStore(st) {
+					sums++
+				}
+			}
+			nInc += inc
+			nSum += sums
+			if inc > 0 && sums < 2 {
+				bad = "the point count advances at " + p.Pos(b.Instrs[0].Pos()) + " without a coordinate being added to the sum in the same step"
+			}
+			if sums > 0 && inc == 0 {
+				bad = "ordinates are added to the sum in " + short(fn) + " without the point count advancing in the same step"
+			}
+		}
+	}
+	r.Check(bad == "" && nInc >= 1 && nSum >= 2, rule, "xy.PointCentroidCalculator/count", "xy/point_centroid.go", true, fmt.Sprintf("%d count increment(s) of +1, each next to the additions to the sum", nInc), bad)
+}
+
+// sqrtRadicandRule (C15): a distance is the square root of a sum of squares. A radicand written as a difference
+// (|AC|^2 - r*(AC.AB), algebraically the same) cancels catastrophically: it comes out slightly negative for points
+// near the segment and the distance is NaN for finite input.
+func sqrtRadicandRule(p *core.Program, r *core.Report, rule string, rels ...string) {
+	r.Rule(rule, "sign analysis: the argument of every math.Sqrt in the distance kernels (packages xy, xy/internal, xyz) is non-negative by construction - built from products of a value with itself (the same SSA value or an equivalent pure expression), sums, products and quotients of non-negative values, math.Abs, non-negative constants; a parameter is non-negative if every caller in the module passes such a value. A subtraction anywhere in the radicand is reported: it is the only way a finite input can produce NaN", 5)
+	callers := map[*ssa.Function][]ssa.CallInstruction{}
+	for _, fn := range p.SrcFuncs(true) {
+		for _, c := range eng.Calls(fn) {
+			if cal := eng.StaticCallee(c); cal != nil {
+				callers[cal] = append(callers[cal], c)
+			}
+		}
+	}
+	var nonNeg func(v ssa.Value, depth int, seen map[ssa.Value]bool) (bool, string)
+	nonNeg = func(v ssa.Value, depth int, seen map[ssa.Value]bool) (bool, string) {
+		if depth > 10 {
+			return false, "expression too deep"
+		}
+		if seen[v] {
+			return true, "" // a cycle through a phi: decided by the other edges
+		}
+		seen[v] = true
+		switch x := v.(type) {
+		case *ssa.Const:
+			if x.Value != nil && constant.Sign(constant.ToFloat(x.Value)) >= 0 {
+				return true, ""
+			}
+			return false, "a negative constant"
+		case *ssa.BinOp:
+			switch x.Op {
+			case token.MUL:
+				if x.X == x.Y || eng.Equiv(x.X, x.Y) {
+					return true, ""
+				}
+				a, wa := nonNeg(x.X, depth+1, seen)
+				b, wb := nonNeg(x.Y, depth+1, seen)
+				if a && b {
+					return true, ""
+				}
+				if !a {
+					return false, wa
+				}
+				return false, wb
+			case token.ADD, token.QUO:
+				a, wa := nonNeg(x.X, depth+1, seen)
+				if !a {
+					return false, wa
+				}
+				return nonNeg(x.Y, depth+1, seen)
+			case token.SUB:
+				return false, "a difference (" + p.Pos(x.Pos()) + ") whose sign is not known"
+			}
+			return false, "operator " + x.Op.String()
+		case *ssa.Call:
+			if eng.IsCallTo(x, "math", "Abs") || eng.IsCallTo(x, "math", "Sqrt") || eng.IsCallTo(x, "math", "Hypot") {
+				return true, ""
+			}
+			cal := x.Call.StaticCallee()
+			if cal != nil && core.InModule(cal) && len(cal.Blocks) > 0 {
+				for _, b := range cal.Blocks {
+					for _, in := range b.Instrs {
+						if ret, ok := in.(*ssa.Return); ok && len(ret.Results) == 1 {
+							if ok2, why := nonNeg(ret.Results[0], depth+1, seen); !ok2 {
+								return false, why
+							}
+						}
+					}
+				}
+				return true, ""
+			}
+			return false, "the result of " + x.Call.Value.String()
+		case *ssa.Phi:
+			for _, e := range x.Edges {
+				if ok, why := nonNeg(e, depth+1, seen); !ok {
+					return false, why
+				}
+			}
+			return true, ""
+		case *ssa.Parameter:
+			f := x.Parent()
+			idx := -1
+			for i, q := range f.Params {
+				if q == x {
+					idx = i
+				}
+			}
+			cs := callers[f]
+			if idx < 0 || len(cs) == 0 {
+				return false, "parameter " + x.Name() + " of " + short(f) + " (no caller in the module establishes its sign)"
+			}
+			for _, c := range cs {
+				if idx >= len(c.Common().Args) {
+					return false, "call shape"
+				}
+				if ok, why := nonNeg(c.Common().Args[idx], depth+1, map[ssa.Value]bool{}); !ok {
+					return false, "argument at " + p.Pos(c.Pos()) + ": " + why
+				}
+			}
+			return true, ""
+		case *ssa.Convert:
+			return nonNeg(x.X, depth+1, seen)
+		}
+		return false, v.String()
+	}
+	n := 0
+	for _, fn := range pkgFuncs(p, rels...) {
+		for _, c := range eng.Calls(fn) {
+			if !eng.IsCallTo(c, "math", "Sqrt") {
+				continue
+			}
+			n++
+			key := fmt.Sprintf("%s/sqrt#%d", short(fn), ordinalOf(fn, c))
+			ok, why := nonNeg(c.Common().Args[0], 0, map[ssa.Value]bool{})
+			r.Check(ok, rule, key, p.Pos(c.Pos()), true, "radicand is a sum of squares / non-negative terms", "the radicand of math.Sqrt is not non-negative by construction: "+why+"; rounding can make it negative and the distance NaN")
+		}
+	}
+}
